@@ -234,6 +234,19 @@ def path_facts(path: Path, upto: int | None = None, versioned: bool | str = True
                     defs[n.targets[0].id] = n.value
             elif isinstance(n, ast.AnnAssign) and isinstance(n.target, ast.Name) and n.value is not None:
                 defs[n.target.id] = n.value
+            elif (
+                isinstance(n, ast.Assign)
+                and len(n.targets) == 1
+                and isinstance(n.targets[0], ast.Tuple)
+                and isinstance(n.value, ast.Tuple)
+                and len(n.targets[0].elts) == len(n.value.elts)
+                and all(isinstance(t, ast.Name) for t in n.targets[0].elts)
+            ):
+                # element-wise `a, b = (x, y)`: each name stands for its own element (when no element reads a target)
+                tnames = {t.id for t in n.targets[0].elts}
+                if not any(_idents(src(v)) & tnames for v in n.value.elts):
+                    for t, v in zip(n.targets[0].elts, n.value.elts):
+                        defs[t.id] = v
         if s.kind in ("stmt", "cond") and not isinstance(n, ast.match_case):
             for w in ast.walk(n):
                 if isinstance(w, ast.NamedExpr) and isinstance(w.target, ast.Name):
